@@ -133,7 +133,7 @@ TGetStart ==
 
 (* store reads of the running get of c are bounded by what its `ge` reports *)
 RECURSIVE GeFrom(_, _)
-GeFrom(c, j) == IF j > Len(Rec) THEN 0
+GeFrom(c, j) == IF j > Len(Rec) \/ Rec[j].e = "reset" THEN 0
                 ELSE IF Rec[j].e = "ge" /\ Rec[j].c = c THEN Rec[j].db ELSE GeFrom(c, j + 1)
 
 THidden(c) ==
